@@ -206,6 +206,10 @@ ParseReport do_parse(const TypeOps& t, const std::string& bytes, const Pres& pre
       pr.spin = true;
       pr.escape_site = g_escape_site;
       stats().step_bound_hits++;
+    } else if (why == 3) {
+      pr.runaway = true;
+      pr.escape_site = g_escape_site;
+      pr.escape_msg = g_escape_msg;
     } else {
       pr.terminated = true;
       pr.escape_site = g_escape_site;
@@ -349,6 +353,9 @@ static std::vector<Outcome> run_hostile(const EvalSpec& e) {
   if (pr.terminated)
     fail("abort", "terminate@" + pr.escape_site, "%s: std::terminate() called inside the noexcept parse API (%s); %zu-byte input, %s", t.name.c_str(),
          pr.escape_msg.c_str(), e.bytes.size(), pres_class_name(pres_class(e.pres)));
+  if (pr.runaway)
+    fail("hang", "alloc-runaway@" + pr.escape_site, "%s: the parse of a %zu-byte input (%s) keeps allocating without consuming input (%s): it does not terminate",
+         t.name.c_str(), e.bytes.size(), pres_class_name(pres_class(e.pres)), pr.escape_msg.c_str());
   if (pr.spin)
     fail("hang", "stream-spin@" + pr.escape_site, "%s: the parser keeps asking the exhausted stream for more data (%llu Next() calls for a %zu-byte input, %s) "
          "while making no progress: it does not terminate (and grows its result without bound)", t.name.c_str(),
@@ -469,8 +476,8 @@ static std::vector<Outcome> run_roundtrip(const EvalSpec& e) {
       if (pr.terminated) {
         fail("abort", "terminate@" + pr.escape_site, "%s: std::terminate() called inside the noexcept parse API (%s) while parsing its own %zu-byte encoding, %s",
              t.name.c_str(), pr.escape_msg.c_str(), s.size(), pres_class_name(pres_class(p)));
-      } else if (pr.spin) {
-        fail("hang", "stream-spin@" + pr.escape_site, "%s: parser spins on the exhausted stream while parsing its own %zu-byte encoding, %s", t.name.c_str(),
+      } else if (pr.spin || pr.runaway) {
+        fail("hang", (pr.spin ? "stream-spin@" : "alloc-runaway@") + pr.escape_site, "%s: parser does not terminate on its own %zu-byte encoding, %s", t.name.c_str(),
              s.size(), pres_class_name(pres_class(p)));
       } else if (!pr.ok) {
         fail("roundtrip", site + "/parse-failed", "%s: parse of its own %zu-byte encoding failed (%s)", t.name.c_str(), s.size(),
@@ -774,12 +781,24 @@ void run_case(uint64_t seed, uint64_t index, const ViolationSink& sink, std::vec
   }
   // ---- oracle 2: a valid encoding as the base of the faults ----
   std::string B;
+  bool base_suspicious = false;
   {
     if (!dry) publish(rs);
     std::vector<Outcome> os;
     EvalScope scope(&os);
     void* v = make_value(t, vseed, budget);
+    size_t predicted = t.calc(v);
     t.ser_string(v, B);
+    // cheap oracle-1 probe on every oracle-2 base (size + flat parse-back); a miss triggers the full clause set below
+    if (!dry) {
+      void* o = t.create();
+      Pres pa;
+      pa.kind = PK_API_ARRAY;
+      ParseReport pr = do_parse(t, B, pa, o);
+      base_suspicious = predicted != B.size() || !pr.ok || !t.eq(v, o);
+      note_eval(t, pa, FK_NONE, 0, pr.ok && !base_suspicious && !B.empty(), true, pr.ok);
+      t.destroy(o);
+    }
     t.destroy(v);
     if (t.alt_encoding && r.chance(1, 2)) {
       Rng r2(vseed ^ 0x517e);
@@ -791,6 +810,7 @@ void run_case(uint64_t seed, uint64_t index, const ViolationSink& sink, std::vec
       for (auto& o : os) sink(rs, o);
     huge_alloc_take();
   }
+  if (base_suspicious) emit(rs);
   int variants = 3;
   for (int vi = 0; vi < variants; ++vi) {
     static const int weights[N_FAULT_KINDS] = {0, 9, 9, 15, 12, 12, 10, 6, 8, 10, 7};
